@@ -1,5 +1,6 @@
 import SimuVerif.Lemmas.RemeshRefine
 import SimuVerif.Lemmas.SurfaceCollapseEuler
+import SimuVerif.Model.RemeshMergeChecks
 /-
   Part 1 of the proof that `mergeEdge` refines `collapseT` (see `RemeshMerge.lean` for the summary).
 
@@ -646,8 +647,7 @@ section
 variable {R : Type} [Add R] [Sub R] [Mul R] [Div R] [Neg R] [Lit R] [LT R] [LE R] [DecidableLT R]
   [DecidableLE R] [DecidableEq R]
 
-/-- the keys of the three sides of a triangle -/
-def sideKeys (t : Tri) : List Nat := [Edge.keyOf t.1 t.2.1, Edge.keyOf t.2.1 t.2.2, Edge.keyOf t.2.2 t.1]
+-- `sideKeys` (the keys of the three sides of a triangle) is defined in `Model/RemeshMergeChecks.lean`
 
 /-- slot `g` of the slot list holds a live triangle one of whose sides has key `k` -/
 def SideK (L : List (Option Tri)) (g k : Nat) : Prop := ∃ t, L[g]? = some (some t) ∧ k ∈ sideKeys t
